@@ -2355,10 +2355,21 @@ impl<'de, 'e> de::Deserializer<'de> for YamlDeserializer<'de, 'e> {
                                         _,
                                     ) = &pairs[0]
                                     {
-                                        *stag == SfTag::Null
-                                            || sv.is_empty()
-                                            || sv == "~"
-                                            || sv.eq_ignore_ascii_case("null")
+                                        // Only a *plain* null-like inner key makes this the
+                                        // "explicit empty key" idiom: a quoted "" / "null" is a string.
+                                        let inner_key_is_quoted = matches!(
+                                            key_node.events().get(1),
+                                            Some(Ev::Scalar {
+                                                style: ScalarStyle::SingleQuoted
+                                                    | ScalarStyle::DoubleQuoted,
+                                                ..
+                                            })
+                                        );
+                                        !inner_key_is_quoted
+                                            && (*stag == SfTag::Null
+                                                || sv.is_empty()
+                                                || sv == "~"
+                                                || sv.eq_ignore_ascii_case("null"))
                                     } else {
                                         false
                                     }
